@@ -67,6 +67,7 @@ package res
 //@   = 33 <= c && c <= 126 && c != '?' && c != '*' && c != '>' && c != '.'
 //@
 //@ func isValidPart(p string) (res bool)
+//@   replay_domain 3 "a .?*>~\x7f\x1f!"
 //@   ensures sem: res == (len(p) > 0 && forall(k, 0, len(p), partch(p[k])))
 //@   loop 1 invariant 0 <= _pos && _pos <= len(p)
 //@   loop 1 invariant sofar: forall(k, 0, _pos, partch(p[k]))
@@ -440,3 +441,154 @@ package res
 //@   ghost call Service.runWith#1 before :: assert split.rname: imp(rtype == "call" || rtype == "auth", m.Subject[len(rtype)+1:len(rtype)+1+len(rname)] == rname)
 //@   ghost call Service.runWith#1 before :: assert split.method: imp(rtype == "call" || rtype == "auth", dotFree(method) && m.Subject[len(rtype)+2+len(rname):] == method)
 //@   ghost call Service.runWith#1 before :: assert group: imp(mh == nil, group == rname) && imp(mh != nil, same(group, mh.Group))
+//@
+//@ # ================================================================ events (C08)
+//@ props C08
+//@ # ghost trace of the effects of event calls: trk[i] is the kind of the i-th effect
+//@ # (1 = apply handler ran, 2 = message published, 3 = listener ran), tra[i] its argument
+//@ # (the listener function for kind 3); lpanic records that a listener panicked.
+//@ ghostvar trn int
+//@ ghostvar trk arr
+//@ ghostvar tra arr
+//@ ghostvar lpanic bool
+//@ ghostvar applyFailed bool
+//@ pred resOK(q *resource) = q != nil && q.s != nil && !isNil(q.s.nc)
+//@ # T6 (encapsulation): client code cannot touch the unexported state the event methods depend on
+//@ pred libFrame() = unchanged("res.resource.s", "res.resource.rname", "res.resource.listeners", "res.resource.h", "res.Service.nc", "res.Service.logger", "res.Service.onError", "elems:res.resource.listeners")
+//@ pred evTrace(b int, a int, p int, n int, ls []func(*Event)) = trn == b + a + p + n && imp(a == 1, trk[b] == 1) && imp(p == 1, trk[b+a] == 2)
+//@     && forall(k, 0, n, trk[b+a+p+k] == 3 && tra[b+a+p+k] == ref(ls[k]))
+//@
+//@ func (s *Service) rawEvent(subj string, payload []byte)
+//@   requires s != nil && !isNil(s.nc)
+//@   modifies ghost.trn, ghost.trk, ghost.tra, ghost.pubn
+//@   callback onError benign
+//@   ghost call Conn.Publish#1 after :: set trk = store(trk, trn, 2)
+//@   ghost call Conn.Publish#1 after :: set tra = store(tra, trn, 0)
+//@   ghost call Conn.Publish#1 after :: set trn = trn + 1
+//@   ensures pub: trn == old(trn) + 1 && trk == store(old(trk), old(trn), 2) && tra == store(old(tra), old(trn), 0)
+//@ func (s *Service) event(subj string, data interface{})
+//@   requires s != nil && !isNil(s.nc)
+//@   modifies ghost.trn, ghost.trk, ghost.tra, ghost.pubn, alloc
+//@   callback onError benign
+//@   ghost call Conn.Publish#1 after :: set trk = store(trk, trn, 2)
+//@   ghost call Conn.Publish#1 after :: set tra = store(tra, trn, 0)
+//@   ghost call Conn.Publish#1 after :: set trn = trn + 1
+//@   ensures atmost: (trn == old(trn) && trk == old(trk) && tra == old(tra)) || (trn == old(trn) + 1 && trk == store(old(trk), old(trn), 2) && tra == store(old(tra), old(trn), 0))
+//@
+//@ # apply handlers and listeners are client code (DESIGN 3.5); their identity in the trace is one entry
+//@ func callback.applyChange(self ref, r iface, changes map[string]interface{}) (rev map[string]interface{}, err error)
+//@   modifies all
+//@   ensures applyFailed == !isNil(err) && libFrame() && trn == old(trn) + 1 && trk == store(old(trk), old(trn), 1) && tra == store(old(tra), old(trn), 0) && lpanic == old(lpanic)
+//@   ensures_on_panic libFrame() && trn == old(trn) + 1 && trk == store(old(trk), old(trn), 1) && tra == store(old(tra), old(trn), 0) && lpanic == old(lpanic)
+//@ func callback.applyAdd(self ref, r iface, v interface{}, idx int) (err error)
+//@   modifies all
+//@   ensures applyFailed == !isNil(err) && libFrame() && trn == old(trn) + 1 && trk == store(old(trk), old(trn), 1) && tra == store(old(tra), old(trn), 0) && lpanic == old(lpanic)
+//@   ensures_on_panic libFrame() && trn == old(trn) + 1 && trk == store(old(trk), old(trn), 1) && tra == store(old(tra), old(trn), 0) && lpanic == old(lpanic)
+//@ func callback.applyRemove(self ref, r iface, idx int) (v interface{}, err error)
+//@   modifies all
+//@   ensures applyFailed == !isNil(err) && libFrame() && trn == old(trn) + 1 && trk == store(old(trk), old(trn), 1) && tra == store(old(tra), old(trn), 0) && lpanic == old(lpanic)
+//@   ensures_on_panic libFrame() && trn == old(trn) + 1 && trk == store(old(trk), old(trn), 1) && tra == store(old(tra), old(trn), 0) && lpanic == old(lpanic)
+//@ func callback.applyCreate(self ref, r iface, data interface{}) (err error)
+//@   modifies all
+//@   ensures applyFailed == !isNil(err) && libFrame() && trn == old(trn) + 1 && trk == store(old(trk), old(trn), 1) && tra == store(old(tra), old(trn), 0) && lpanic == old(lpanic)
+//@   ensures_on_panic libFrame() && trn == old(trn) + 1 && trk == store(old(trk), old(trn), 1) && tra == store(old(tra), old(trn), 0) && lpanic == old(lpanic)
+//@ func callback.applyDelete(self ref, r iface) (data interface{}, err error)
+//@   modifies all
+//@   ensures applyFailed == !isNil(err) && libFrame() && trn == old(trn) + 1 && trk == store(old(trk), old(trn), 1) && tra == store(old(tra), old(trn), 0) && lpanic == old(lpanic)
+//@   ensures_on_panic libFrame() && trn == old(trn) + 1 && trk == store(old(trk), old(trn), 1) && tra == store(old(tra), old(trn), 0) && lpanic == old(lpanic)
+//@ func callback.listener(self ref, ev *Event)
+//@   modifies all
+//@   ensures libFrame() && trn == old(trn) + 1 && trk == store(old(trk), old(trn), 3) && tra == store(old(tra), old(trn), self) && lpanic == old(lpanic) && applyFailed == old(applyFailed)
+//@   ensures_on_panic lpanic
+//@
+//@ func (r *resource) AddEvent(v interface{}, idx int)
+//@   requires resOK(r) && !lpanic
+//@   requires nonnil: forall(k, 0, len(r.listeners), r.listeners[k] != nil)
+//@   modifies all
+//@   callback ApplyAdd applyAdd
+//@   callback cb listener
+//@   ghost loop 1 entry :: assert ev: ev != nil && typeIs(ev.Resource, "*res.resource") && ptrOf(ev.Resource, "*res.resource") == r && ev.Name == "add" && same(ev.Value, v) && ev.Idx == idx
+//@   ensures valid: old(r.h.Type) != 1 && idx >= 0
+//@   ensures applied: imp(old(r.h.ApplyAdd != nil), !applyFailed)
+//@   ensures order: evTrace(old(trn), ite(old(r.h.ApplyAdd != nil), 1, 0), 0, len(old(r.listeners)), old(r.listeners)) || evTrace(old(trn), ite(old(r.h.ApplyAdd != nil), 1, 0), 1, len(old(r.listeners)), old(r.listeners))
+//@   ensures_on_panic quiet: imp(!lpanic, trn <= old(trn) + 1 && forall(i, old(trn), trn, trk[i] == 1) && imp(old(r.h.Type) == 1 || idx < 0, trn == old(trn)))
+//@   loop 1 invariant rangeindex >= -1 && rangeindex < len(old(r.listeners)) && !lpanic && resOK(r) && libFrame()
+//@   loop 1 invariant ap: imp(old(r.h.ApplyAdd != nil), !applyFailed)
+//@   loop 1 invariant tr: evTrace(old(trn), ite(old(r.h.ApplyAdd != nil), 1, 0), 0, rangeindex + 1, old(r.listeners)) || evTrace(old(trn), ite(old(r.h.ApplyAdd != nil), 1, 0), 1, rangeindex + 1, old(r.listeners))
+//@
+//@ func (r *resource) RemoveEvent(idx int)
+//@   requires resOK(r) && !lpanic
+//@   requires nonnil: forall(k, 0, len(r.listeners), r.listeners[k] != nil)
+//@   modifies all
+//@   callback ApplyRemove applyRemove
+//@   callback cb listener
+//@   ghost loop 1 entry :: assert ev: ev != nil && typeIs(ev.Resource, "*res.resource") && ptrOf(ev.Resource, "*res.resource") == r && ev.Name == "remove" && ev.Idx == idx && same(ev.Value, v)
+//@   ensures valid: old(r.h.Type) != 1 && idx >= 0
+//@   ensures applied: imp(old(r.h.ApplyRemove != nil), !applyFailed)
+//@   ensures order: evTrace(old(trn), ite(old(r.h.ApplyRemove != nil), 1, 0), 0, len(old(r.listeners)), old(r.listeners)) || evTrace(old(trn), ite(old(r.h.ApplyRemove != nil), 1, 0), 1, len(old(r.listeners)), old(r.listeners))
+//@   ensures_on_panic quiet: imp(!lpanic, trn <= old(trn) + 1 && forall(i, old(trn), trn, trk[i] == 1) && imp(old(r.h.Type) == 1 || idx < 0, trn == old(trn)))
+//@   loop 1 invariant rangeindex >= -1 && rangeindex < len(old(r.listeners)) && !lpanic && resOK(r) && libFrame()
+//@   loop 1 invariant ap: imp(old(r.h.ApplyRemove != nil), !applyFailed)
+//@   loop 1 invariant tr: evTrace(old(trn), ite(old(r.h.ApplyRemove != nil), 1, 0), 0, rangeindex + 1, old(r.listeners)) || evTrace(old(trn), ite(old(r.h.ApplyRemove != nil), 1, 0), 1, rangeindex + 1, old(r.listeners))
+//@
+//@ func (r *resource) CreateEvent(data interface{})
+//@   requires resOK(r) && !lpanic
+//@   requires nonnil: forall(k, 0, len(r.listeners), r.listeners[k] != nil)
+//@   modifies all
+//@   callback ApplyCreate applyCreate
+//@   callback cb listener
+//@   ghost loop 1 entry :: assert ev: ev != nil && typeIs(ev.Resource, "*res.resource") && ptrOf(ev.Resource, "*res.resource") == r && ev.Name == "create" && same(ev.Data, data)
+//@   ensures applied: imp(old(r.h.ApplyCreate != nil), !applyFailed)
+//@   ensures order: evTrace(old(trn), ite(old(r.h.ApplyCreate != nil), 1, 0), 1, len(old(r.listeners)), old(r.listeners))
+//@   ensures_on_panic quiet: imp(!lpanic, trn <= old(trn) + 1 && forall(i, old(trn), trn, trk[i] == 1))
+//@   loop 1 invariant rangeindex >= -1 && rangeindex < len(old(r.listeners)) && !lpanic && resOK(r) && libFrame()
+//@   loop 1 invariant ap: imp(old(r.h.ApplyCreate != nil), !applyFailed)
+//@   loop 1 invariant tr: evTrace(old(trn), ite(old(r.h.ApplyCreate != nil), 1, 0), 1, rangeindex + 1, old(r.listeners))
+//@
+//@ func (r *resource) DeleteEvent()
+//@   requires resOK(r) && !lpanic
+//@   requires nonnil: forall(k, 0, len(r.listeners), r.listeners[k] != nil)
+//@   modifies all
+//@   callback ApplyDelete applyDelete
+//@   callback cb listener
+//@   ghost loop 1 entry :: assert ev: ev != nil && typeIs(ev.Resource, "*res.resource") && ptrOf(ev.Resource, "*res.resource") == r && ev.Name == "delete" && same(ev.Data, data)
+//@   ensures applied: imp(old(r.h.ApplyDelete != nil), !applyFailed)
+//@   ensures order: evTrace(old(trn), ite(old(r.h.ApplyDelete != nil), 1, 0), 1, len(old(r.listeners)), old(r.listeners))
+//@   ensures_on_panic quiet: imp(!lpanic, trn <= old(trn) + 1 && forall(i, old(trn), trn, trk[i] == 1))
+//@   loop 1 invariant rangeindex >= -1 && rangeindex < len(old(r.listeners)) && !lpanic && resOK(r) && libFrame()
+//@   loop 1 invariant ap: imp(old(r.h.ApplyDelete != nil), !applyFailed)
+//@   loop 1 invariant tr: evTrace(old(trn), ite(old(r.h.ApplyDelete != nil), 1, 0), 1, rangeindex + 1, old(r.listeners))
+//@
+//@ func (r *resource) ChangeEvent(changed map[string]interface{})
+//@   requires resOK(r) && !lpanic
+//@   requires nonnil: forall(k, 0, len(r.listeners), r.listeners[k] != nil)
+//@   modifies all
+//@   callback ApplyChange applyChange
+//@   callback cb listener
+//@   ghost loop 1 entry :: assert ev: ev != nil && typeIs(ev.Resource, "*res.resource") && ptrOf(ev.Resource, "*res.resource") == r && ev.Name == "change" && same(ev.NewValues, changed) && same(ev.OldValues, rev)
+//@   ensures valid: old(r.h.Type) != 2
+//@   ensures applied: imp(old(r.h.ApplyChange != nil) && old(len(changed)) != 0, !applyFailed)
+//@   ensures order: (trn <= old(trn) + 1 && forall(i, old(trn), trn, trk[i] == 1) && imp(old(len(changed)) == 0, trn == old(trn))) || (evTrace(old(trn), ite(old(r.h.ApplyChange != nil), 1, 0), 0, len(old(r.listeners)), old(r.listeners)) || evTrace(old(trn), ite(old(r.h.ApplyChange != nil), 1, 0), 1, len(old(r.listeners)), old(r.listeners)))
+//@   ensures_on_panic quiet: imp(!lpanic, trn <= old(trn) + 1 && forall(i, old(trn), trn, trk[i] == 1) && imp(old(r.h.Type) == 2, trn == old(trn)))
+//@   loop 1 invariant rangeindex >= -1 && rangeindex < len(old(r.listeners)) && !lpanic && resOK(r) && libFrame()
+//@   loop 1 invariant ap: imp(old(r.h.ApplyChange != nil), !applyFailed)
+//@   loop 1 invariant tr: evTrace(old(trn), ite(old(r.h.ApplyChange != nil), 1, 0), 0, rangeindex + 1, old(r.listeners)) || evTrace(old(trn), ite(old(r.h.ApplyChange != nil), 1, 0), 1, rangeindex + 1, old(r.listeners))
+//@
+//@ spec func reservedEvent(e string) bool
+//@   = e == "change" || e == "delete" || e == "add" || e == "remove" || e == "patch" || e == "reaccess" || e == "unsubscribe" || e == "query"
+//@ func (r *resource) Event(event string, payload interface{})
+//@   requires resOK(r) && !lpanic
+//@   requires nonnil: forall(k, 0, len(r.listeners), r.listeners[k] != nil)
+//@   modifies all
+//@   callback cb listener
+//@   ghost loop 1 entry :: assert ev: ev != nil && typeIs(ev.Resource, "*res.resource") && ptrOf(ev.Resource, "*res.resource") == r && same(ev.Name, event) && same(ev.Payload, payload)
+//@   ensures valid: !reservedEvent(event) && len(event) > 0 && forall(k, 0, len(event), partch(event[k]))
+//@   ensures order: evTrace(old(trn), 0, 0, len(old(r.listeners)), old(r.listeners)) || evTrace(old(trn), 0, 1, len(old(r.listeners)), old(r.listeners))
+//@   ensures_on_panic quiet: imp(!lpanic, trn == old(trn))
+//@   loop 1 invariant rangeindex >= -1 && rangeindex < len(old(r.listeners)) && !lpanic && resOK(r) && libFrame()
+//@   loop 1 invariant tr: evTrace(old(trn), 0, 0, rangeindex + 1, old(r.listeners)) || evTrace(old(trn), 0, 1, rangeindex + 1, old(r.listeners))
+//@
+//@ func (r *resource) ReaccessEvent()
+//@   requires resOK(r)
+//@   modifies ghost.trn, ghost.trk, ghost.tra, ghost.pubn
+//@   ensures pub: trn == old(trn) + 1 && trk == store(old(trk), old(trn), 2)
